@@ -398,7 +398,7 @@ func c17Run(c *Ctx) {
 	}
 	c.Bound("preemptions", fmt.Sprint(bound))
 	c.Bound("threads", "2 (one scenario with 3)")
-	if !c.Quick() && c.Shard == 0 {
+	if c.Shard == 0 {
 		c17RacePass(c)
 	}
 	scs := c17Scenarios()
@@ -482,14 +482,20 @@ func racePassMain(args []string) {
 		for i := 0; i < iters; i++ {
 			sh := c17Setup(sc)
 			var wg sync.WaitGroup
-			for _, op := range sc.Threads {
-				body := c17Body(op, sh)
-				wg.Add(1)
-				go func() {
-					defer wg.Done()
-					body()
-				}()
+			start := make(chan struct{})
+			// every operation four times over: they are all either independent or read-only on what they share
+			for rep := 0; rep < 4; rep++ {
+				for _, op := range sc.Threads {
+					body := c17Body(op, sh)
+					wg.Add(1)
+					go func() {
+						defer wg.Done()
+						<-start
+						body()
+					}()
+				}
 			}
+			close(start)
 			wg.Wait()
 			n++
 		}
@@ -504,13 +510,17 @@ func c17RacePass(c *Ctx) {
 		c.Note("auxiliary race-detector pass skipped (no -race build)")
 		return
 	}
+	iters := "25"
+	if !c.Quick() {
+		iters = "150"
+	}
 	for _, procs := range []string{"2", "16"} {
-		cmd := exec.Command(bin, "racepass", "150")
+		cmd := exec.Command(bin, "racepass", iters)
 		cmd.Env = append(os.Environ(), "GOMAXPROCS="+procs, "GORACE=halt_on_error=1 exitcode=66")
 		var stderr bytes.Buffer
 		cmd.Stderr = &stderr
 		out, err := cmd.Output()
-		c.Count("auxiliary_race_detector_executions", 150*7)
+		c.Count("auxiliary_race_detector_passes", 1)
 		if err != nil && strings.Contains(stderr.String(), "DATA RACE") {
 			c.Violate(Violation{Oracle: "concurrency", Class: "data-race(go race detector, free-running)", Detail: tail(stderr.String(), 3000),
 				Features: map[string]string{"symptom": "data-race-detector", "sigx": "GOMAXPROCS=" + procs},
